@@ -1,22 +1,36 @@
-// C07 harness (whole runs): one small evolutionary run per process; prints a transcript of every
-// after_generation callback (population dump, best, counters, analyzer) and of the final summary,
-// without wall-clock fields.  The check compares the transcripts of several PROCESSES started with
-// the same arguments (and of two runs inside one process: `repeat`).
+// C07 harness (whole runs): one small evolutionary search per process; prints a transcript of every
+// after_generation callback (population dump, best, counters, analyzer), of the final summary and of the
+// statistics files the search wrote – without wall-clock fields.  The check compares the transcripts of
+// several PROCESSES started with the same (seed, problem, data, parameters): different heap layouts, a
+// stalled process, a COLD execution (no serialization file yet) against a WARM one (the file a previous
+// execution left behind), and of two runs inside one process (`repeat`).
 //
-//   c07_run <config> <seed> <generations> <individuals> <noise> [repeat | stall-cb:<n>:<ms> | stall-eval:<n>:<ms>]
-//     config : mep-std | mep-alps | mep-dss | mep-holdout | ga-std | ga-alps | de
+//   c07_run <config> <seed> <generations> <individuals> <noise> [<mode> [<params>]]
+//     config : <kind>-<strategy>[-<validation>]  (also the old names mep-dss, mep-holdout, de)
+//              kind       mep  (src_search<i_mep>, symbolic regression)
+//                         cls  (src_search<i_mep>, classification, 3 classes)
+//                         team (src_search<team<i_mep>>, symbolic regression)
+//                         ga   (basic_ga_search<i_ga>)         de (de_search)
+//              strategy   std | alps          validation  dss | holdout   (src kinds only)
 //     noise  : seed of a heap-layout perturbation executed before anything is allocated by vita
 //              (0 = none): shakes out address-dependent behaviour
-//     stall-cb:<n>:<ms>   timing perturbation: the n-th after_generation callback (0-based, counted over
-//                         the whole process) sleeps <ms> milliseconds AFTER it has been recorded
-//     stall-eval:<n>:<ms> the n-th call of the fitness function sleeps <ms> ms (ga-* and de only: the
-//                         harness owns their fitness function) – a stall in the middle of a generation
-//     A stalled process must print exactly the transcript of an unstalled one: nothing observable may
-//     depend on the wall clock (evolution.tcc has a branch taken 2 s after the last progress message).
+//     mode   : - | repeat | stall-cb:<n>:<ms> | stall-eval:<n>:<ms>
+//              stall-cb:<n>:<ms>   the n-th after_generation callback (0-based, counted over the whole
+//                                  process) sleeps <ms> milliseconds AFTER it has been recorded
+//              stall-eval:<n>:<ms> the n-th call of the fitness function sleeps <ms> ms (ga-* and de only)
+//     params : comma separated key=value, every one an environment parameter that enables a code path:
+//              brood cache elit pmut pcross tourn mate stuck layers code patch minind dssgap valpct agegap
+//              psame team dewlo dewhi runs eva thr  and the two that are NOT parameters of the problem:
+//              ser=<file>   env.misc.serialization_file (the evaluation cache is loaded from / saved to it)
+//              logs=<dir>   env.stat.* files are written there (must be an empty directory)
+//     Neither the path nor the presence of the serialization file may change the transcript.
 #include "kernel/vita.h"
 #include "common/verif.h"
 
 #include <chrono>
+#include <filesystem>
+#include <fstream>
+#include <map>
 #include <sstream>
 #include <thread>
 
@@ -49,6 +63,95 @@ void heap_noise(std::uint64_t seed)
     else keep->push_back(p);
 }
 
+// ---- parameters -------------------------------------------------------------------------------------
+struct params
+{
+  std::map<std::string, std::string> kv;
+
+  explicit params(const std::string &s = "")
+  {
+    std::size_t p(0);
+    while (p < s.size())
+    {
+      auto q(s.find(',', p));
+      if (q == std::string::npos) q = s.size();
+      const std::string item(s.substr(p, q - p));
+      const auto eq(item.find('='));
+      if (eq != std::string::npos) kv[item.substr(0, eq)] = item.substr(eq + 1);
+      p = q + 1;
+    }
+  }
+  bool has(const char *k) const { return kv.count(k); }
+  unsigned u(const char *k) const { return std::stoul(kv.at(k)); }
+  double d(const char *k) const { return std::stod(kv.at(k)); }
+  const std::string &s(const char *k) const { return kv.at(k); }
+  unsigned runs() const { return has("runs") ? u("runs") : 2; }
+};
+
+void apply(environment &e, const params &p)
+{
+  if (p.has("brood")) e.brood_recombination = p.u("brood");
+  if (p.has("cache")) e.cache_size = p.u("cache");
+  if (p.has("ser")) e.misc.serialization_file = p.s("ser");
+  if (p.has("elit")) e.elitism = p.u("elit") ? trilean::yes : trilean::no;
+  if (p.has("pmut")) e.p_mutation = p.d("pmut");
+  if (p.has("pcross")) e.p_cross = p.d("pcross");
+  if (p.has("tourn")) e.tournament_size = p.u("tourn");
+  if (p.has("mate")) e.mate_zone = p.u("mate");
+  if (p.has("stuck")) e.max_stuck_time = p.u("stuck");
+  if (p.has("layers")) e.layers = p.u("layers");
+  if (p.has("code")) e.mep.code_length = p.u("code");
+  if (p.has("patch")) e.mep.patch_length = p.u("patch");
+  if (p.has("minind")) e.min_individuals = p.u("minind");
+  if (p.has("dssgap")) e.dss = p.u("dssgap");
+  if (p.has("valpct")) e.validation_percentage = p.u("valpct");
+  if (p.has("agegap")) e.alps.age_gap = p.u("agegap");
+  if (p.has("psame")) e.alps.p_same_layer = p.d("psame");
+  if (p.has("team")) e.team.individuals = p.u("team");
+  if (p.has("dewlo") && p.has("dewhi")) e.de.weight = {p.d("dewlo"), p.d("dewhi")};
+  if (p.has("thr")) e.threshold.fitness = {p.d("thr")};
+  if (p.has("logs"))
+  {
+    e.stat.dir = p.s("logs");
+    e.stat.dynamic_file = "dynamic.txt";
+    e.stat.layers_file = "layers.txt";
+    e.stat.population_file = "population.txt";
+    e.stat.summary_file = "summary.xml";
+  }
+}
+
+// what the previous execution left behind – reported on stderr (never part of the transcript)
+void report_files(const params &p)
+{
+  if (!p.has("ser")) return;
+  std::error_code ec;
+  const auto sz(std::filesystem::file_size(p.s("ser"), ec));
+  std::cerr << "SERIALIZATION-FILE " << (ec ? "absent" : "present bytes=" + std::to_string(sz)) << '\n';
+}
+
+// the statistics files are results as well (wall-clock element aside)
+void dump_logs(std::ostream &o, const params &p)
+{
+  if (!p.has("logs")) return;
+  for (const char *n : {"dynamic.txt", "layers.txt", "population.txt", "summary.xml"})
+  {
+    std::ifstream f(std::filesystem::path(p.s("logs")) / n);
+    o << "FILE " << n << (f ? "" : " absent") << '\n';
+    std::string line;
+    while (std::getline(f, line))
+      if (line.find("elapsed_time") == std::string::npos && line.find("<serialization_file>") == std::string::npos)
+      {
+        // the two scratch paths are not parameters of the problem (summary.xml echoes the environment)
+        for (const char *k : {"logs", "ser"})
+          if (p.has(k) && !p.s(k).empty())
+            for (auto at(line.find(p.s(k))); at != std::string::npos; at = line.find(p.s(k)))
+              line.replace(at, p.s(k).size(), std::string("@") + k + "@");
+        o << "  " << line << '\n';
+      }
+  }
+}
+
+// ---- transcript ---------------------------------------------------------------------------------------
 template<class T> void dump_dist(std::ostream &o, const char *name, const distribution<T> &d)
 {
   o << name << ' ';
@@ -71,6 +174,8 @@ void dump(std::ostream &o, const population<T> &pop, const summary<T> &s)
   dump_dist(o, "AGE", s.az.age_dist());
   dump_dist(o, "FITD", s.az.fit_dist());
   dump_dist(o, "LEN", s.az.length_dist());
+  for (unsigned l(0); l < pop.layers(); ++l)
+    o << "LAYER " << l << " allowed " << pop.allowed(l) << " individuals " << pop.individuals(l) << '\n';
   o << "SYM";
   for (auto it(s.az.begin()); it != s.az.end(); ++it)
     o << ' ' << it->first->name() << ':' << it->first->opcode() << ':' << it->second.counter[0]
@@ -86,30 +191,50 @@ template<class T> void final_dump(std::ostream &o, const summary<T> &s)
   s.best.solution.save(o);
   o << "FIT ";
   s.best.score.fitness.save(o);
-  o << " acc " << verif::bits(s.best.score.accuracy) << '\n';
+  o << " acc " << verif::bits(s.best.score.accuracy) << " sol " << s.best.score.is_solution << '\n';
 }
 
-const char *dataset()
+std::string regression_data()
 {
   // y = x1*x1 + x2 - 1 (with a little noise-free structure), 24 rows
-  static std::string s;
-  if (s.empty())
+  std::ostringstream os;
+  for (int i(0); i < 24; ++i)
   {
-    std::ostringstream os;
-    for (int i(0); i < 24; ++i)
-    {
-      const double a(-3.0 + 0.37 * i), b(1.5 - 0.21 * i * (i % 3));
-      os << a * a + b - 1.0 << ',' << a << ',' << b << '\n';
-    }
-    s = os.str();
+    const double a(-3.0 + 0.37 * i), b(1.5 - 0.21 * i * (i % 3));
+    os << a * a + b - 1.0 << ',' << a << ',' << b << '\n';
   }
-  return s.c_str();
+  return os.str();
 }
 
-template<template<class> class ES>
-void run_mep(std::ostream &o, unsigned gens, unsigned inds, int validator)
+std::string classification_data()
 {
-  std::istringstream is(dataset());
+  // three classes in the plane, 30 rows
+  std::ostringstream os;
+  for (int i(0); i < 30; ++i)
+  {
+    const double a(-2.0 + 0.31 * i - 0.9 * (i % 4)), b(0.4 * (i % 7) - 1.1 + 0.05 * i);
+    const char *label(a * a + b > 2.0 ? "far" : a + b > 0.3 ? "up" : "down");
+    os << label << ',' << a << ',' << b << '\n';
+  }
+  return os.str();
+}
+
+evaluator_id evaluator_of(const std::string &n)
+{
+  if (n == "count") return evaluator_id::count;
+  if (n == "mae") return evaluator_id::mae;
+  if (n == "rmae") return evaluator_id::rmae;
+  if (n == "mse") return evaluator_id::mse;
+  if (n == "bin") return evaluator_id::bin;
+  if (n == "dyn_slot") return evaluator_id::dyn_slot;
+  if (n == "gaussian") return evaluator_id::gaussian;
+  return evaluator_id::undefined;
+}
+
+template<class T, template<class> class ES>
+void run_src(std::ostream &o, unsigned gens, unsigned inds, bool classification, int validator, const params &p)
+{
+  std::istringstream is(classification ? classification_data() : regression_data());
   src_problem prob(is);
   prob.setup_symbols();
   prob.env.individuals = inds;
@@ -118,22 +243,25 @@ void run_mep(std::ostream &o, unsigned gens, unsigned inds, int validator)
   prob.env.mep.code_length = 24;
   if (validator == 1) prob.env.dss = 2;
   if (validator == 2) prob.env.validation_percentage = 30;
+  apply(prob.env, p);
 
-  src_search<i_mep, ES> s(prob);
+  src_search<T, ES> s(prob);
+  if (p.has("eva")) s.evaluator(evaluator_of(p.s("eva")));
   if (validator == 1) s.validation_strategy(validator_id::dss);
   if (validator == 2) s.validation_strategy(validator_id::holdout);
-  s.after_generation([&o](const population<i_mep> &p, const summary<i_mep> &st) { dump(o, p, st); });
-  final_dump(o, s.run(2));
+  s.after_generation([&o](const population<T> &pop, const summary<T> &st) { dump(o, pop, st); });
+  final_dump(o, s.run(p.runs()));
 }
 
 template<template<class> class ES>
-void run_ga(std::ostream &o, unsigned gens, unsigned inds)
+void run_ga(std::ostream &o, unsigned gens, unsigned inds, const params &p)
 {
   const int N(8);
   ga_problem prob(N, {0, N});
   prob.env.individuals = inds;
   prob.env.generations = gens;
   prob.env.layers = 2;
+  apply(prob.env, p);
 
   auto f = [](const i_ga &x) -> fitness_t
   {
@@ -147,15 +275,16 @@ void run_ga(std::ostream &o, unsigned gens, unsigned inds)
   };
 
   basic_ga_search<i_ga, ES, decltype(f)> s(prob, f);
-  s.after_generation([&o](const population<i_ga> &p, const summary<i_ga> &st) { dump(o, p, st); });
-  final_dump(o, s.run(2));
+  s.after_generation([&o](const population<i_ga> &pop, const summary<i_ga> &st) { dump(o, pop, st); });
+  final_dump(o, s.run(p.runs()));
 }
 
-void run_de(std::ostream &o, unsigned gens, unsigned inds)
+void run_de(std::ostream &o, unsigned gens, unsigned inds, const params &p)
 {
   de_problem prob(4, {-5.12, 5.12});
   prob.env.individuals = inds;
   prob.env.generations = gens;
+  apply(prob.env, p);
 
   auto f = [](const std::vector<double> &x)
   {
@@ -166,21 +295,45 @@ void run_de(std::ostream &o, unsigned gens, unsigned inds)
   };
 
   de_search<decltype(f)> s(prob, f);
-  s.after_generation([&o](const population<i_de> &p, const summary<i_de> &st) { dump(o, p, st); });
-  final_dump(o, s.run(2));
+  s.after_generation([&o](const population<i_de> &pop, const summary<i_de> &st) { dump(o, pop, st); });
+  final_dump(o, s.run(p.runs()));
 }
 
-void one_run(std::ostream &o, const std::string &cfg, unsigned seed, unsigned gens, unsigned inds)
+bool one_run(std::ostream &o, const std::string &cfg, unsigned seed, unsigned gens, unsigned inds,
+             const params &p)
 {
+  std::vector<std::string> part;
+  std::istringstream ss(cfg);
+  for (std::string w; std::getline(ss, w, '-');) part.push_back(w);
+  const std::string kind(part.empty() ? "" : part[0]);
+  bool alps(false);
+  int validator(0);
+  for (std::size_t i(1); i < part.size(); ++i)
+    if (part[i] == "alps") alps = true;
+    else if (part[i] == "dss") validator = 1;
+    else if (part[i] == "holdout") validator = 2;
+    else if (part[i] != "std") return false;
+
   random::seed(seed);
-  if (cfg == "mep-std") run_mep<std_es>(o, gens, inds, 0);
-  else if (cfg == "mep-alps") run_mep<alps_es>(o, gens, inds, 0);
-  else if (cfg == "mep-dss") run_mep<std_es>(o, gens, inds, 1);
-  else if (cfg == "mep-holdout") run_mep<std_es>(o, gens, inds, 2);
-  else if (cfg == "ga-std") run_ga<std_es>(o, gens, inds);
-  else if (cfg == "ga-alps") run_ga<alps_es>(o, gens, inds);
-  else if (cfg == "de") run_de(o, gens, inds);
-  else o << "bad-config\n";
+  if (kind == "mep" || kind == "cls")
+  {
+    if (alps) run_src<i_mep, alps_es>(o, gens, inds, kind == "cls", validator, p);
+    else run_src<i_mep, std_es>(o, gens, inds, kind == "cls", validator, p);
+  }
+  else if (kind == "team")
+  {
+    if (alps) run_src<team<i_mep>, alps_es>(o, gens, inds, false, validator, p);
+    else run_src<team<i_mep>, std_es>(o, gens, inds, false, validator, p);
+  }
+  else if (kind == "ga")
+  {
+    if (alps) run_ga<alps_es>(o, gens, inds, p);
+    else run_ga<std_es>(o, gens, inds, p);
+  }
+  else if (kind == "de") run_de(o, gens, inds, p);
+  else return false;
+  dump_logs(o, p);
+  return true;
 }
 
 }  // namespace
@@ -197,6 +350,7 @@ int main(int argc, char *argv[])
   const unsigned seed(std::stoul(argv[2])), gens(std::stoul(argv[3])), inds(std::stoul(argv[4]));
   heap_noise(std::stoull(argv[5]));
   const std::string mode(argc > 6 ? argv[6] : "");
+  const params p(argc > 7 ? argv[7] : "");
   const bool repeat(mode == "repeat");
   if (mode.rfind("stall-", 0) == 0)
   {
@@ -206,16 +360,21 @@ int main(int argc, char *argv[])
     stall_ms = std::stoul(mode.substr(p2 + 1));
     (mode.rfind("stall-cb", 0) == 0 ? stall_cb_at : stall_eval_at) = n;
   }
+  report_files(p);
 
   std::ostringstream a;
-  one_run(a, cfg, seed, gens, inds);
+  if (!one_run(a, cfg, seed, gens, inds, p))
+  {
+    std::cout << "bad-config\n";
+    return 2;
+  }
   std::cout << a.str();
   if (stall_cb_at >= callbacks || stall_eval_at >= evaluations)
     std::cout << "STALL-NOT-REACHED\n";    // the perturbation did not happen: the check must know
   if (repeat)
   {
     std::ostringstream b;
-    one_run(b, cfg, seed, gens, inds);
+    one_run(b, cfg, seed, gens, inds, p);
     std::cout << (a.str() == b.str() ? "REPEAT same\n" : "REPEAT different\n");
     if (a.str() != b.str())
       std::cout << "SECOND\n" << b.str();
